@@ -3,6 +3,7 @@ package main
 import (
 	"os"
 	"sort"
+	"strings"
 
 	"github.com/imroc/req/v3/verifharness/hk"
 )
@@ -74,7 +75,7 @@ func (w *world) exhaust(d *doc, set settings, coqSamples int) {
 			}
 			mode := "zero"
 			if k >= 512 {
-				mode = hk.Pick(r, []string{"zero", "stale-meta", "aa", "reuse"})
+				mode = hk.Pick(r, []string{"zero", "stale-meta", "aa", "reuse", "fill"})
 			}
 			w.unit(d, set, splitAt(d.Body, []int{o}), r.Bool(), []int{k}, mode, false)
 		}
@@ -108,11 +109,11 @@ func (w *world) exhaust(d *doc, set settings, coqSamples int) {
 		if L > 1600 && pat[0] <= 7 && len(pat) == 1 {
 			pat = []int{512}
 		}
-		w.unit(d, set, chunks, r.Bool(), pat, hk.Pick(r, []string{"zero", "stale-meta", "aa", "reuse"}), true)
+		w.unit(d, set, chunks, r.Bool(), pat, hk.Pick(r, []string{"zero", "stale-meta", "aa", "reuse", "fill"}), true)
 	}
 }
 
-var sitesFor = []site{siteHeader, siteMeta, siteHTTPEquiv, siteNone, siteConflict, siteTwoMeta, siteLateMeta, siteHdrUnk, siteHdrUTF8}
+var sitesFor = []site{siteHeader, siteMeta, siteHTTPEquiv, siteNone, siteConflict, siteTwoMeta, siteLateMeta, siteHdrUnk, siteHdrUTF8, siteTextFirst}
 
 func runC15(r *hk.Run) {
 	r.Header = "From ReqV Require Import Model.C15Run.\nImport ListNotations."
@@ -138,6 +139,40 @@ func runC15(r *hk.Run) {
 		w.unit(d3, defaultSet, splitAt(d3.Body, []int{40}), false, []int{512, 512}, "reuse", true)
 	}
 
+	// A1b. first network read larger than x/text's 4096-byte internal buffers, caller buffers beyond that
+	if gbk := specByName("gbk"); gbk != nil {
+		d, _ := makeDoc(hk.NewRand(11), siteMeta, gbk, 9000)
+		for _, mode := range []string{"zero", "reuse", "fill"} {
+			for _, pat := range [][]int{{8192}, {16384, 512}, {16384}} {
+				w.unit(d, defaultSet, [][]byte{d.Body}, false, pat, mode, mode == "fill" && len(pat) == 1 && pat[0] == 16384)
+				w.unit(d, defaultSet, splitAt(d.Body, []int{6001}), true, pat, mode, false)
+			}
+		}
+	}
+
+	// A2. selection is by case-sensitive substring on the whole Content-Type value: spellings outside
+	// the configured selection must be left alone, whatever they declare
+	for i, ct := range []string{"TEXT/HTML", "Text/Html; charset=gbk", "APPLICATION/JSON; charset=gbk", "TEXT/PLAIN; charset=big5", "application/octet-stream; charset=gbk", "image/svg; charset=gbk"} {
+		gbk := specByName("gbk")
+		s := siteMeta
+		if i%2 == 1 {
+			s = siteHeader
+		}
+		d, ok := makeDoc(hk.NewRand(uint64(20+i)), s, gbk, 120)
+		if !ok {
+			continue
+		}
+		d.CT = ct
+		d.HdrCS = ""
+		if j := strings.Index(ct, "charset="); j >= 0 {
+			d.HdrCS = ct[j+len("charset="):]
+		}
+		for _, set := range []settings{defaultSet, {Sel: "list", List: []string{"html", "json"}}, {Sel: "list", List: []string{"octet"}}} {
+			w.unit(d, set, [][]byte{d.Body}, false, []int{512}, "zero", true)
+			w.unit(d, set, splitAt(d.Body, []int{d.TextStart + 3}), true, []int{7, 4096}, "stale-meta", true)
+		}
+	}
+
 	// B. charsets x sites x lengths, every 2-split x caller buffers (oracle) + sampled Coq cases
 	nDocs := r.Scale(150, 1500)
 	for i := 0; i < nDocs; i++ {
@@ -146,7 +181,7 @@ func runC15(r *hk.Run) {
 		if cs.UTF8 && rnd.Chance(50) {
 			s = hk.Pick(rnd, []site{siteBOM, siteNone, siteMeta, siteHeader})
 		}
-		if cs.UTF16 && (s == siteHdrUnk || s == siteHdrUTF8 || s == siteTwoMeta || s == siteLateMeta) {
+		if cs.UTF16 && (s == siteHdrUnk || s == siteHdrUTF8 || s == siteTwoMeta || s == siteLateMeta || s == siteTextFirst) {
 			s = hk.Pick(rnd, []site{siteBOM, siteHeader})
 		}
 		target := hk.Pick(rnd, bodyTargets)
